@@ -247,11 +247,13 @@ pub fn generate(opts: &Opts, out: &mut Out) {
             let ms: Vec<String> = (0..n)
                 .map(|_| {
                     seq += 1;
-                    let size = match rng.below(5) {
+                    let size = match rng.below(6) {
                         0 => 0,
                         1 => rng.below(8),
                         2 => rng.below(200),
                         3 => *rng.pick(&[1100u64, 1150, 1180]),
+                        // around the replication message limit, and well beyond it (events have no limit)
+                        4 => *rng.pick(&[1190u64, 1194, 1195, 1196, 1197, 1198, 1199, 1200, 1201, 1202, 1203, 1204, 1210, 2000, 8000]),
                         _ => rng.below(1180),
                     };
                     format!("{}:{}:{}", rng.below(nch), seq, size)
